@@ -31,6 +31,35 @@ func ImportCases() *ImportSet {
 	un := &Record{Kind: Union, Name: "ImpUnion", Support: true, Label: "imported-union", Branches: []Branch{{Disc: 1, Rec: ua}, {Disc: 2, Rec: ub}}}
 	nested := &Record{Kind: Struct, Name: "ImpNested", Support: true, Label: "imported-struct:nested-var", Fields: []Field{{Name: "v", Type: R(vari)}, {Name: "n", Type: P("uint16")}}}
 	is.DepRecords = []*Record{fixed, vari, empty, msg, un, nested}
+	// two versions of a message and of a union (whose message branch evolves) side by side in the imported file: only the wire
+	// matters, a value written with the New types is read with the Old ones (C04)
+	after := func() Field { return Field{Name: "after", Type: P("int32")} }
+	for _, ver := range []string{"Old", "New"} {
+		fs := func() []Field {
+			f := []Field{{Name: "a", Index: 1, Type: P("int32")}, {Name: "s", Index: 2, Type: P("string")}}
+			if ver == "New" {
+				f = append(f, Field{Name: "x", Index: 3, Type: P("string")}, Field{Name: "y", Index: 4, Type: P("int32")})
+			}
+			return f
+		}
+		ev := &Record{Kind: Message, Name: "ImpEv" + ver, Support: true, Label: "imported-message:evolved", Fields: fs()}
+		um := &Record{Kind: Message, Name: "ImpUEv" + ver + "M", Support: true, Inline: true, Label: "message:evolved", Fields: fs()}
+		us := &Record{Kind: Struct, Name: "ImpUEv" + ver + "S", Support: true, Inline: true, Label: "struct:fixed", Fields: []Field{{Name: "v", Type: P("int32")}}}
+		uev := &Record{Kind: Union, Name: "ImpUEv" + ver, Support: true, Label: "imported-union:evolved", Branches: []Branch{{Disc: 1, Rec: um}, {Disc: 2, Rec: us}}}
+		is.DepRecords = append(is.DepRecords, ev, uev)
+		id := "CEvImp" + ver
+		mk := func(ctx string, r *Record) {
+			r.Name = id + ctx
+			is.Cases = append(is.Cases, &Case{ID: r.Name, Ctx: "EV", Class: "EV|IMP-" + ctx, Rec: r})
+		}
+		mk("US", &Record{Kind: Struct, Fields: []Field{{Name: "u", Type: R(uev)}, after()}})
+		mk("UA", &Record{Kind: Struct, Fields: []Field{{Name: "us", Type: A(R(uev))}, after()}})
+		mk("UV", &Record{Kind: Struct, Fields: []Field{{Name: "um", Type: M("string", R(uev))}, after()}})
+		mk("UF", &Record{Kind: Message, Fields: []Field{{Name: "u", Index: 1, Type: R(uev)}, {Name: "after", Index: 2, Type: P("int32")}}})
+		mk("MS", &Record{Kind: Struct, Fields: []Field{{Name: "m", Type: R(ev)}, after()}})
+		mk("MA", &Record{Kind: Struct, Fields: []Field{{Name: "ms", Type: A(R(ev))}, after()}})
+		mk("MF", &Record{Kind: Message, Fields: []Field{{Name: "m", Index: 1, Type: R(ev)}, {Name: "after", Index: 2, Type: P("int32")}}})
+	}
 	// local structs that embed imported ones
 	locE := &Record{Kind: Struct, Name: "LocHoldEmpty", Support: true, Label: "struct:holds-imported-empty", Fields: []Field{{Name: "e", Type: R(empty)}, {Name: "x", Type: P("int32")}}}
 	locV := &Record{Kind: Struct, Name: "LocHoldVar", Support: true, Label: "struct:holds-imported-var", Fields: []Field{{Name: "x", Type: P("int32")}, {Name: "v", Type: R(vari)}}}
@@ -38,7 +67,6 @@ func ImportCases() *ImportSet {
 	locM := &Record{Kind: Struct, Name: "LocHoldMsg", Support: true, Label: "struct:holds-imported-message", Fields: []Field{{Name: "m", Type: R(msg)}, {Name: "x", Type: P("int32")}}}
 	is.Locals = []*Record{locE, locV, locF, locM}
 	leaves := []*Type{E(en), R(fixed), R(vari), R(empty), R(msg), R(un), R(nested), R(locE), R(locV), R(locF), R(locM)}
-	after := func() Field { return Field{Name: "after", Type: P("int32")} }
 	bait := func() Field { return Field{Name: "bait", Type: P("int32")} }
 	n := 0
 	for _, l := range leaves {
